@@ -115,11 +115,11 @@ PROPS["C20"] = dict(
 # one module per group of translated functions, so that a function leaving the translatable subset breaks only the
 # properties resting on it)
 PROPS_EXTRA = {
-    'C01': ['Props.GenHeads', 'Props.GenJoin', 'Props.GenTraverse', 'Props.GenJoinTail'],
-    'C02': ['Props.C13Facts', 'Props.GenHeads', 'Props.GenJoinTail'],
-    'C03': ['Props.C19Gen', 'Props.GenTraverse'],
+    'C01': ['Props.GenHeads', 'Props.GenJoin', 'Props.GenTraverse', 'Props.GenJoinTail', 'Props.GenCapstoneJoin'],
+    'C02': ['Props.C13Facts', 'Props.GenHeads', 'Props.GenJoinTail', 'Props.GenCapstoneJoin'],
+    'C03': ['Props.C19Gen', 'Props.GenTraverse', 'Props.GenCapstoneValues'],
     'C04': ['Props.C04Conc', 'Props.GenMisc', 'Props.GenAppend'],
-    'C05': ['Props.GenTraverse', 'Props.GenJoinTail'],
+    'C05': ['Props.GenTraverse', 'Props.GenJoinTail', 'Props.GenCapstoneValues'],
     'C06': ['Props.EffectFacts', 'Props.CodecFacts', 'Props.GenHeads', 'Props.GenJoin', 'Props.GenJoinTail'],
     'C07': ['Props.CodecFacts'],
     'C08': ['Props.CodecFacts', 'Props.GenMisc'],
@@ -127,7 +127,7 @@ PROPS_EXTRA = {
     'C10': ['Props.GenFetcher', 'Props.GenLoaders'],
     'C11': ['Props.GenFetcher'],
     'C12': ['Props.CodecFacts', 'Props.GenFetcher'],
-    'C14': ['Props.GenHeads', 'Props.GenJoin', 'Props.GenJoinTail'],
+    'C14': ['Props.GenHeads', 'Props.GenJoin', 'Props.GenJoinTail', 'Props.GenCapstoneJoin'],
     'C15': ['Props.C13Facts', 'Props.GenTraverse', 'Props.GenIterator'],
     'C16': ['Props.GenJoin', 'Props.GenJoinTail'],
     'C17': ['Props.EffectFacts', 'Props.GenFetcher'],
